@@ -36,9 +36,25 @@ THEOREMS = [
     "PV.C03.unicodeLiteral_err_offset",
     "PV.C03.unicodeName_guard",
     "PV.C03.unicodeName_err_offset",
-    "PV.C03.fstring_depth_le_two",
+    # the recursive skeleton over { } : x, with the expression check and an instrumented depth
+    "PV.C03.fskel_depth_le_two",
+    "PV.C03.fskel_terminates",
+    "PV.C03.fskel_err_offset",
+    # the f-string scanner over its FULL alphabet (C07's model PV.C07.parseFString, imported)
     "PV.C03.fstring_terminates",
+    "PV.C03.fstring_no_panic",
     "PV.C03.fstring_err_offset",
+    "PV.C03.fstring_field_starts",
+    "PV.C03.fstring_depth_guard",
+    "PV.C03.fstring_err_offset_in_source",
+    "PV.C03.fstring_err_offset_crlf_fails",
+    # parse_error_from_lalrpop + not_before + the start marker (PV.C03.ErrConv)
+    "PV.C03.errconv_lower_bound",
+    "PV.C03.errconv_offset_eq",
+    "PV.C03.errconv_offset_in_input",
+    "PV.C03.errconv_offset_token_boundary",
+    "PV.C03.errconv_variants",
+    "PV.C03.parse_err_offset_in_input",
     "PV.C03.lex_terminates",
     "PV.C03.lex_no_panic",
     "PV.C03.lex_none_iff_too_long",
@@ -48,8 +64,14 @@ THEOREMS = [
 TRUSTED = [
     "Lean 4.33.0 kernel; axioms limited to propext, Classical.choice, Quot.sound",
     "hand-written models lean/PV/C03/Escapes.lean (parse_octet, parse_unicode_literal, parse_unicode_name guard, "
-    "f-string nesting skeleton of parser/src/string.rs) and lean/PV/Lexer/{Tok,Model,SoftKw}.lean (lexer.rs, "
+    "f-string nesting skeleton of parser/src/string.rs), lean/PV/C07/Model.lean + lean/PV/C06/Model.lean (the f-string "
+    "scanner over its full alphabet and the escape decoder; shared with C07/C06), lean/PV/C03/ErrConv.lean "
+    "(parse_error_from_lalrpop, not_before, start marker of parser.rs) and lean/PV/Lexer/{Tok,Model,SoftKw}.lean (lexer.rs, "
     "soft_keywords.rs; shared with C05), tied to the code by the correspondence streams of this run",
+    "ErrConv.reports: where the locations inside a lalrpop_util::ParseError come from (an unrecognised / extra token is an "
+    "item of the stream, end of input is located at the end of the last item read or at the start marker, a User error is the "
+    "stream's Err item or was raised by an action inside an item's range) is an assumption about the LALRPOP driver; the "
+    "errconv stream evaluates it on the real token streams and errors of this run",
     "UParams.Sane: the hypothesis on unic_ucd_ident / unic_emoji_char tables under which the lexer theorems hold",
     "the LALRPOP-generated LR automaton and its 1.7k actions (parser/src/python.rs) are NOT modelled: the parser "
     "stage is covered by the direct monitors only (no panic, error offset in [start, start+len] on a char boundary)",
@@ -60,16 +82,26 @@ TRUSTED = [
     "lean/Drv/C03.lean",
 ]
 PARTIAL = [
-    "the parser stage (LALRPOP LR driver loop, 1.7k grammar actions, parse_error_from_lalrpop, function.rs validators) "
-    "has no model: it is covered by the direct monitors only",
-    "string.rs: the four kernels are modelled and proved; the f-string scanner is modelled over the symbols { } : x "
-    "(the recursive skeleton), not over its full alphabet (quotes, !, =, ( [ delimiters, escapes)",
+    "the parser stage: the LALRPOP LR driver loop, the 1.7k grammar actions and the function.rs validators have no model "
+    "(direct monitors only; PV.Prog models the grammar as a recogniser, without error positions). The glue around the driver "
+    "IS modelled (PV.C03.ErrConv: parse_error_from_lalrpop, not_before, marker placement): errconv_offset_in_input / "
+    "parse_err_offset_in_input prove that every error the glue returns lies in [start, start+len] GIVEN that the LR driver "
+    "reports locations taken from the token stream (ErrConv.reports, checked on every run by the errconv stream, not proved); "
+    "the character-boundary half is proved for the LR driver's own variants (errconv_offset_token_boundary + C05 "
+    "tokens_on_boundaries), for User errors it is the lexer's (lex_err_offset) or string.rs's (fstring_err_offset_in_source)",
+    "string.rs: the f-string scanner is proved over its full alphabet on C07's model (termination with fuel 2|body|+1 and "
+    "fuel monotonicity, no modelled panic, error offsets and field starts on boundaries of the token value inside the "
+    "literal, the nested >= 2 guard). Left out: (a) parse_fstring_expr is abstracted — an InvalidExpression error is not in "
+    "the model; it is reported at a field start, which fstring_field_starts places inside the literal for successful "
+    "scans, and the skeleton (fskel_*) models it with its ordering over { } : x; the recursion through "
+    "Expr::parse_starts_at into nested f-strings is bounded by the four quote kinds but not modelled; (b) the recursion "
+    "depth is proved as the guard (parse_fstring(nested >= 2) returns at once) plus the instrumented maximum of the "
+    "skeleton, not as an instrumented maximum of the full model; (c) parse_string / parse_bytes error offsets are C06's",
     "lexer theorems assume UParams.Sane (identifier-start characters are identifier characters; CR/LF are not) about "
     "the external Unicode tables; C05's pre_build checks it on the real tables",
     "time bound and native stack depth are measured (ladder exponents, depth about 1.0e5 on 8 MiB), not proved",
-    "error offsets produced by string.rs are wrong when the literal contains CRLF, and a token-less expression-mode "
-    "source reports offset 0 (known findings): lex_err_offset holds for the lexer stage, the parser-stage offsets are "
-    "only monitored",
+    "error offsets produced by string.rs are one byte early per CR LF inside the literal (known finding; "
+    "fstring_err_offset_in_source assumes a CR-free token, fstring_err_offset_crlf_fails is the kernel-checked witness)",
 ]
 READY = True
 TECHNIQUE = ("Lean 4 theorems over hand-written models of the lexer and of the escape/f-string kernels + differential "
@@ -80,8 +112,11 @@ LEVEL_TEXT = ("Machine-checked Lean 4 theorems. Lexer (shared model of lexer.rs 
               "at start + the UTF-8 length of a prefix of the source. String literals, for bodies of every length: the "
               "modelled octal and hex escape "
               "accumulators stay within u32 and within char::from_u32's domain exactly where the code unwraps, the "
-              "\\N{..} length guard and every modelled error offset stay inside the literal, and the modelled f-string "
-              "scanner terminates with recursion depth at most 2. The models are tied to the Rust code on every run by "
+              "\\N{..} length guard and every modelled error offset stay inside the literal, and the f-string scanner over its "
+              "full alphabet (C07's model) terminates with fuel 2|body|+1, never reaches a modelled panic, reports errors and "
+              "field starts on character boundaries inside the literal (in the source file for CR-free literals) and refuses a "
+              "third nesting level at once. Parser glue: the ParseError built from any LALRPOP error variant and clamped by "
+              "not_before lies in [start, start+len] whenever the variant's locations come from the token stream. The models are tied to the Rust code on every run by "
               "exhaustive small-scope and random differential correspondence. The lexer and the whole parser are "
               "additionally monitored directly on the real code (no panic/abort/hang, error offset within the input and "
               "on a character boundary) over valid, mutated, random and pathological inputs in all modes and offsets.")
@@ -100,6 +135,7 @@ MODES = "mie"
 _TOTAL = re.compile(r"len=(\d+) lex=(ok|panic|runaway|err@(\d+)) n=(\d+) parse=(ok|panic|err@(\d+))"
                     r"(?: lex_us=(\d+) parse_us=(\d+) cpu_ms=(\d+|na))?$")
 _KERNEL = re.compile(r"(ok(?: \S+)?|other|panic|err@(\d+))$")
+_ERRCONV = re.compile(r"\S+@(\d+) indent=[01] reports=\S+$")
 
 _LADDER = {}        # shape -> {chars: {"lex_us":…, "parse_us":…}}; filled by the oracle, reported via ctx.extra
 _STATE = {"tier": "quick", "skipped": 0}
@@ -126,6 +162,8 @@ def _literal_of(ws):
         return b'"\\N' + unhex(ws[1]) + b'"'
     if ws[0] == "fnest":
         return b'f"' + unhex(ws[1]) + b'"'
+    if ws[0] == "fscan":
+        return unhex(ws[1])
     return None
 
 
@@ -174,7 +212,21 @@ def oracle(req, out):
             if _STATE["tier"] == "thorough" and n >= 1_000_000 and cpu_ms > 60_000:
                 return f"lexing+parsing {n} bytes took more than 60 s of CPU time"
         return None
-    if op in ("oct", "uni", "name", "fnest"):
+    if op == "errconv":
+        if out == "panic":
+            return "the parser panicked"
+        m = _ERRCONV.match(out)
+        if not m:
+            return "unparsable answer " + out[:80] if out != "ok" else None
+        start = int(ws[2])
+        src = unhex(ws[3])
+        off = int(m.group(1))
+        if not (start <= off <= start + len(src)):
+            return f"parser error offset {off} outside [{start}, {start + len(src)}]"
+        if not _is_boundary(src, off - start):
+            return f"parser error offset {off} (relative {off - start}) is not on a character boundary"
+        return None
+    if op in ("oct", "uni", "name", "fnest", "fscan"):
         m = _KERNEL.match(out)
         if not m:
             return "unparsable answer " + out[:80]
@@ -455,6 +507,11 @@ LADDER_SHAPES = [
     ("match-lines", "m", "", "match x:\n case 1: pass\n", ""),
     ("softkw-long-lookahead", "m", "match (", "x, ", "):\n case _: pass\n"),
     ("type-lookahead", "m", "type X[", "T, ", "] = int\n"),
+    # soft-keyword pass after the `start_of_statement` repair: a `type` look-ahead per `;` / `:` must stay linear (look-aheads that
+    # start outside brackets are disjoint; honouring `;` / `:` inside brackets would make these two shapes quadratic)
+    ("type-after-semi-open-bracket", "m", "", "type X[;", "\n"),
+    ("type-after-colon-open-bracket", "m", "", "x:type X[", "\n"),
+    ("type-aliases-one-line", "m", "", "type X = 1;", "\n"),
     ("implicit-concat", "m", "x = (", "'a' ", ")\n"),
     ("fstring-fields", "m", 'x = f"', "{a}", '"\n'),
     ("unicode-idents", "m", "", "é = 1\n", ""),
@@ -683,6 +740,17 @@ def _lexmodel_streams(ctx, progs, small):
     out.append(Stream("lexmodel-short-texts", reqs, kind="exhaustive", driver="drv_c05", harness=plain, exhaustive=True,
                       note="every text of length <= 2 over %d symbols and of length 3 over 27 symbols" % len(ALPHABET),
                       nontrivial=lambda r: r.split()[3] != "-"))
+    import softkw_seq
+    reqs = [LC.lexreq(t, m, 0) for t in softkw_seq.CORPUS for m in MODES]
+    reqs += [LC.lexreq(t, "m", 0) for t in softkw_seq.texts(4)]
+    reqs += [LC.lexreq(t, "mie"[i % 3], 0) for i, t in enumerate(softkw_seq.texts_ext(2 if quick else 3))]
+    if not quick:
+        reqs += [LC.lexreq(t, "m", 0) for t in softkw_seq.texts(5, exact=True)]
+    out.append(Stream("lexmodel-softkw-statement-start", reqs, kind="exhaustive", driver="drv_c05", harness=plain, exhaustive=True,
+                      note="every sequence of at most %d pieces over type X = 1, type, ;, :, if a, lambda, ( ) [ ] { }, NEWLINE, x "
+                           "(the start_of_statement / nesting state of the soft-keyword pass), and short sequences over the "
+                           "extended piece set (comments, indented lines, continuation lines, match / case)" % (4 if quick else 5),
+                      nontrivial=lambda r: r.split()[3] != "-"))
     rngl = ctx.rng("lexmodel")
     nl = 2500 if quick else 100000
     reqs = [LX(i, G.mutate(rngl, progs[i % len(progs)])) for i in range(nl)]
@@ -708,6 +776,129 @@ def _lexmodel_streams(ctx, progs, small):
     out.append(Stream("lexmodel-pathological", reqs, kind="directed", driver="drv_c05", harness=plain,
                       note="long runs, nesting, staircases, continuation lines, offsets ending at 2^32-1"))
     return out
+
+
+def _fscan_reqs(ctx):
+    """f-string literals over the scanner's FULL alphabet, for the model PV.C07.parseFString that the theorems
+    fstring_terminates / fstring_no_panic / fstring_err_offset / fstring_field_starts are about.  Only bodies whose
+    expression texts are valid expressions are sent (the model abstracts parse_fstring_expr; see tools/c03gen.py)."""
+    quick = ctx.quick
+    rng = ctx.rng("fscan")
+    corpus, exh, rnd = [], [], []
+
+    def add(dst, body, prefix):
+        raw = "r" in prefix.lower()
+        src = G.fscan_source(body, prefix)
+        if src is not None and G.fscan_admissible(body, raw):
+            dst.append("fscan " + hexs(src))
+
+    prefixes = ["f", "F", "rf", "fR", "Rf", "FR"]
+    for b in G.FSCAN_CORPUS:
+        for pfx in prefixes[:3]:
+            add(corpus, b, pfx)
+    for n in (10, 100, 1000):
+        for unit in ("{x}", "{x:{y}}", "{x!r:>{w}}", "{{", "{x=}", "\\x41", "{x['k']}", "é{é}"):
+            add(corpus, unit * n, "f")
+        for b in ("{" * n, "{x:" * n, "{x:{" * n, "}" * n, "{(" * n, "{x[" * n + "]" * n + "}", "{'" + "a" * n, "{x!" * n,
+                  "{x=" + " " * n, "{x:" + "\\\\" * n + "}", "{" + "(" * n + "x" + ")" * n + "}", "{x:" + "{y}" * n + "}"):
+            add(corpus, b, "f")
+    L = 4 if quick else 5
+    for i, b in enumerate(G.fscan_exhaustive(L)):
+        add(exh, b, "f" if "\\" not in b else ("f", "rf")[i % 2])
+    for b in G.fscan_exhaustive(6 if quick else 7, ["{", "}", ":", "!", "=", "x", "r", " "]):
+        if len(b) > L:
+            add(exh, b, "f")
+    for i in range(3000 if quick else 80000):
+        add(rnd, G.fscan_random(rng), prefixes[i % len(prefixes)])
+    # implicit concatenation with plain / other f-string / bytes literals (parse_strings in front of the scanner)
+    for a, b in [("'a' ", "{x}"), ("f'{y}' ", "{x!z}"), ("'\\x4' ", "{x}"), ("b'a' ", "{x}"), ("u'a' ", "{x!r:{w}}"), ("'' ", "{"),
+                 ("f'{' ", "x}"), ("'a' \"b\" ", "{x:{y:{z}}}")]:
+        src = G.fscan_source(b, "f")
+        if src is not None and G.fscan_admissible(b, False):
+            corpus.append("fscan " + hexs(a + src))
+    return corpus, list(dict.fromkeys(exh)), list(dict.fromkeys(rnd))
+
+
+_ERR_SOURCES_EXTRA = [
+    "", " ", "\n", "#c", "x =", "x = (", "x = )", "x = (1 2)", "f(", "f(a=1, b)", "def f():", "def f():\n", "def f():\nx",
+    "if x:\n  y\n z\n", "  x", "\tx\n", "x\n  y\n", "class A:\n", "for x in y:\n", "if x:\npass", "x = $", "x = 1 $", "x ? y", "'abc",
+    "\"\"\"abc", "x = 'a\nb'", "0x", "1__0", "09", "1.e+", "x = f'{a!x}'", "x = f'{'", "x = f'{a b}'", "x = '\\N{QQ}'", "x = b'é'",
+    "x = 'a' b'b'", "f'{x}' b''", "lambda", "lambda a, a: 0", "def f(a, a): pass", "def f(a=1, b): pass", "f(a=1, a=2)", "f(**a, *b)",
+    "x = 1 2", "1 +", "(1 +", "[1, 2", "{1: }", "x.", "x..y", "@", "@x\n", "else:", "elif x:", "except:", "return", "import",
+    "from . import", "x = y = ", "x +=", "x := 1", "(x :=)", "match x:\n", "match x:\n case", "match x:\n case 1:", "type X =", "type X[T",
+    "async", "async x", "await", "x if y", "x if y else", "not", "é = ", "😀", "x = 'é' 1", "# é\nx = (", "x = [\n  1,\n  2",
+    "if x:\n\ty\n        z\n", "with x as", "try:\n x\n", "try:\n x\nfinally:", "x\\", "x \\\n", "\\", "(\\\n", "1 if", "print >>x", "`x`",
+    "x <> y", "*", "**x", "x = *", "del", "global", "assert", "raise x from",
+]
+
+
+def _errconv_reqs(ctx):
+    """Two passes.  (1) `errraw` on invalid sources gives, from the REAL lexer and parser: the `Ok` items of the token
+    stream in front of the first `Err`, that `Err`, and the error of `parse_tokens(lex_starts_at(..))` — i.e. before the
+    `not_before` clamp.  From these the `lalrpop_util::ParseError` the LR driver must have produced is reconstructed:
+      Eof@o, and Lexical:IndentationError@o that is not the stream's Err item
+                                     -> UnrecognizedEof{location: o, expected}, where expected = ["Indent"] iff the stream
+                                        ends with the items Colon, Newline (end of input right behind a block header)
+      Lexical:K@o                    -> User{K, o}
+      UnrecognizedToken:T:e@o        -> UnrecognizedToken{token: (o, T, r), expected: [e]} (e = - : not exactly one expected
+                                        token), r = the end of the stream item (o, T, _)
+      ExtraToken:T@o                 -> ExtraToken{token: (o, T, r)}
+    (2) the `errconv` request carries that variant, the items and the Err (`v= t= x=`): the harness answers with the error
+    of `parse_starts_at` (after the clamp) and `is_indentation_error()`; the Lean driver recomputes both from the variant
+    with PV.C03.ErrConv (`parseStartsAtErr`, `isIndentationError`) and evaluates `reports` — the hypothesis of
+    errconv_offset_in_input about where the LR driver's locations come from — on the real token stream."""
+    rc, out, hbin = core.cargo_build(HARNESS["bin"], HARNESS.get("features", "default"))
+    if rc != 0:
+        ctx.notes.append("errconv stream skipped: harness build failed")
+        return []
+    rng = ctx.rng("errconv")
+    srcs = [s for s in CORPUS if len(s) <= 200] + _ERR_SOURCES_EXTRA
+    progs = [G.valid_program(rng, size=rng.choice([1, 2, 3])) for _ in range(150 if ctx.quick else 4000)]
+    srcs += [G.mutate(rng, p) for p in progs for _ in range(2)]
+    srcs += [G.token_soup(rng, rng.randrange(1, 9)) for _ in range(300 if ctx.quick else 6000)]
+    srcs = [s for s in dict.fromkeys(srcs) if not ("\r" in s and ("'" in s or '"' in s))]
+    first = []
+    for i, s_ in enumerate(srcs):
+        try:
+            b = s_.encode("utf-8")
+        except UnicodeEncodeError:
+            continue
+        if len(b) > 400:
+            continue
+        for mode in (MODES if i < 400 else MODES[i % 3]):
+            for st in ((0, 400) if i < 400 else ((0, 1, 400, 2 ** 31)[i % 4],)):
+                first.append((mode, st, b))
+    raw = core.run_lines([hbin], [f"errraw {m} {st} {hexs(b)}" for m, st, b in first], jobs=4)
+    reqs = []
+    for (m, st, b), o in zip(first, raw):
+        mm = re.match(r"t=(\S+) x=(\S+) p=(\S+)$", o or "")
+        if not mm or mm.group(3) == "ok":
+            continue
+        t, x, p = mm.groups()
+        if len(t) > 6000:
+            continue
+        kind, off = p.rsplit("@", 1)
+        toks = [] if t == "-" else [it.split(":") for it in t.split(";")]
+        parts = kind.split(":")
+        at_eof = parts[0] == "Eof" or (parts[:2] == ["Lexical", "IndentationError"] and x != f"IndentationError@{off}")
+        if at_eof:
+            # `expected` cannot be observed through the public error; it is `["Indent"]` exactly when the input ends
+            # right behind a block header (`:` NEWLINE), which is read off the token stream — so the special case of
+            # parse_error_from_lalrpop is checked against the stream, not against its own output
+            header = [n for _, n, _ in toks[-2:]] == ["Colon", "Newline"]
+            v = f"E:{off}:Indent" if header else f"E:{off}:?,?"
+        elif parts[0] == "Lexical":
+            v = f"U:{parts[1]}:{off}"
+        elif parts[0] in ("UnrecognizedToken", "ExtraToken"):
+            r = next((e for l, n, e in toks if l == off and n == parts[1]), off)
+            if parts[0] == "ExtraToken":
+                v = f"X:{off}:{parts[1]}:{r}"
+            else:
+                v = f"T:{off}:{parts[1]}:{r}:{parts[2] if parts[2] != '-' else '?,?'}"
+        else:
+            continue        # InvalidToken is never built by parse_error_from_lalrpop for a Mod
+        reqs.append(f"errconv {m} {st} {hexs(b)} v={v} t={t} x={x}")
+    return reqs
 
 
 def streams(ctx):
@@ -756,6 +947,25 @@ def streams(ctx):
                       note="oct: every digit string of length <= 3 (sampled at 4); \\x: every string of length <= 2 over "
                            "hex digits, g, e-acute; fnest: every body over {,},:,x up to length %d; random beyond" % (7 if quick else 9),
                       nontrivial=lambda r: r.split()[-1] != "-"))
+
+    # 2b. the f-string scanner over its full alphabet (model = PV.C07.parseFString, the model of C03's fstring_* theorems)
+    fc, fe, fr = _fscan_reqs(ctx)
+    nt = lambda r: len(r.split()[1]) > 6
+    out.append(Stream("fscan-corpus", fc, kind="corpus", nontrivial=nt,
+                      note="every error shape of parse_fstring / parse_formatted_value / parse_spec, non-ASCII at every "
+                           "position, long repetitions (10, 100, 1000 units), implicit concatenation"))
+    out.append(Stream("fscan-exhaustive", fe, kind="exhaustive", nontrivial=nt,
+                      note="every body of length <= %d over { } : ! = x ' ( ) [ ] \\ blank r \" < and of length <= %d over "
+                           "{ } : ! = x r blank, as a one-token literal, whose expression texts are expressions"
+                           % ((4, 6) if quick else (5, 7))))
+    out.append(Stream("fscan-random", fr, kind="random", nontrivial=nt,
+                      note="structured bodies (text, escapes, doubled braces, fields, conversions, nested specs, '=' forms) with "
+                           "0..2 single-character edits; six prefix spellings; single and triple quotes"))
+
+    # 2c. the conversion of LALRPOP's errors (model = PV.C03.ErrConv)
+    out.append(Stream("errconv", _errconv_reqs(ctx), kind="malformed", nontrivial=lambda r: r.split()[3] != "-",
+                      note="invalid sources x modes x start offsets: the public ParseError of parse_starts_at recomputed from the "
+                           "reconstructed lalrpop_util::ParseError; `reports` evaluated on the real token stream"))
 
     # 3. exhaustive short texts
     out.append(Stream("short-texts-exhaustive", _exhaustive_short(ctx), kind="exhaustive", compare=False, exhaustive=True,
